@@ -624,6 +624,14 @@ func (x *Exec) evalSelector(n *ast.SelectorExpr, st *State) (Val, *State) {
 			if v, ok := st.vars[o]; ok {
 				return v, st
 			}
+			if o.Pkg() != nil && o.Pkg().Path() == "io" {
+				switch o.Name() {
+				case "EOF":
+					return scInt(errEOF), st
+				case "ErrUnexpectedEOF":
+					return scInt(errUnexpectedEOF), st
+				}
+			}
 			return x.globalVal(o, st), st
 		case *types.Const:
 			return x.constVal(o.Val(), o.Type()), st
